@@ -5,3 +5,4 @@ import Mhub2.Types
 import Mhub2.Ledger
 import Mhub2.Votes
 import Mhub2.Step
+import Mhub2.Connector
